@@ -103,17 +103,19 @@ type Options struct {
 	ShardDepth int       // choice depth at which subtrees are assigned to shards (default 2)
 	Deadline   time.Time // zero: none. When hit, Stats.Capped is set.
 	MaxExec    int64     // 0: none
+	Strict     bool      // replay divergence is a hard error (for harnesses that own all nondeterminism)
 	Trace      bool
 }
 
 type Stats struct {
-	Executions   int64 // executions owned by this shard (oracle evaluated)
-	Discovery    int64 // executions run only to discover tree shape (not owned)
-	ChoicePoints int64 // sum of choice points over owned executions (= transitions)
-	MaxDepth     int
-	Capped       bool
-	CapReason    string
-	Divergences  int64
+	Executions        int64 // executions owned by this shard (oracle evaluated)
+	Discovery         int64 // executions run only to discover tree shape (not owned)
+	ChoicePoints      int64 // sum of choice points over owned executions (= transitions)
+	MaxDepth          int
+	Capped            bool
+	CapReason         string
+	Divergences       int64 // replays that did not reproduce the recorded choice points (re-run)
+	DivergentAccepted int64 // executions accepted although they never matched the recorded prefix
 }
 
 func owns(choices []int, depth, shard, n int) bool {
@@ -163,17 +165,28 @@ func Explore(opt Options, body func(c *Ctx) bool) Stats {
 				pts[i].pick = prefix[i]
 			}
 		} else {
-			c := &Ctx{prefix: prefix, expect: expect, trace: opt.Trace}
+			var c *Ctx
 			cont := true
 			owned := true
-			// ownership is only known after the run for short prefixes
-			func() {
+			// The implementation may contain nondeterminism the harness does not own (map
+			// iteration order, select among ready cases). If replaying the prefix does not
+			// reproduce the recorded choice points, the run is repeated; if it never does,
+			// the divergent run is accepted as an execution in its own right and counted.
+			for attempt := 0; ; attempt++ {
+				c = &Ctx{prefix: prefix, expect: expect, trace: opt.Trace}
 				cont = body(c)
-			}()
-			if c.diverged != "" {
+				if c.diverged == "" || !cont {
+					break
+				}
 				st.Divergences++
-				fmt.Fprintln(os.Stderr, "HARNESS-ERROR:", c.diverged)
-				panic("choice: " + c.diverged)
+				if opt.Strict {
+					fmt.Fprintln(os.Stderr, "HARNESS-ERROR:", c.diverged)
+					panic("choice: " + c.diverged)
+				}
+				if attempt >= 40 {
+					st.DivergentAccepted++
+					break
+				}
 			}
 			pts = c.pts
 			owned = owns(c.Choices(), depth, opt.Shard, opt.NShards)
